@@ -571,7 +571,8 @@ pub fn run_c18(ctx: &mut Ctx) {
     let mut files = failing_files(&mut rng, ctx.n(14, 70));
     files.extend(small_valid_files(&mut rng, ctx.n(6, 24)));
     // a 3-frame APNG whose first frame has an undefined filter-type byte in its fifth row (D19: found by the thorough tier)
-    files.push(corpus::TestFile { bytes: unhex(BAD_FILTER_APNG).unwrap_or_default(), source: "fail-mid-frame".into(), model_domain: true });
+    // (model_domain = false: the frame count of the reference decoder stops at the damaged frame; later frames do exist)
+    files.push(corpus::TestFile { bytes: unhex(BAD_FILTER_APNG).unwrap_or_default(), source: "fail-mid-frame".into(), model_domain: false });
     let alphabet = [Op::NextFrame(0), Op::NextRow, Op::ReadRow, Op::NextFrameInfo, Op::Finish];
     let conts = all_sequences(&alphabet, ctx.n(3, 4));
     let prefixes: Vec<Vec<Op>> = vec![
